@@ -268,6 +268,15 @@ def replay(pid, path):
     sc = data.get("scenario")
     if sc and data.get("slice") == "K":
         import slice_k as K
+        if str(data.get("signature", "")).startswith("nested-"):
+            _st, fs_ = K.run_nested(pid, "quick", 0, 1, tables=[sc])
+            for f_ in fs_:
+                print(f_.kind, f_.signature, f_.detail)
+            if any(f_.kind == "counterexample" for f_ in fs_):
+                print("VIOLATION property=%s replay=%s" % (pid, path))
+                return 1
+            print("no violation of %s on this table" % pid)
+            return 0
         real, _d = K.construct(sc)
         print("constructor:", real, "| table cyclic:", K.is_cyclic(sc))
         if real == "ACCEPT" and K.is_cyclic(sc):
@@ -1150,7 +1159,18 @@ ASSUME_V = [
 FLAG_THMS = ["Props.C20_nested_inlining_flags_partial", "Props.C20_flagSafe_decidable", "Props.C20_no_flags_is_flagSafe",
              "Props.C20_flag_witness_default", "Props.C20_flag_witness_indexed", "VM.traceStmts_goodF", "VM.traceStmts_dead"]
 reg("C01", ["Props.C01_core", "Props.C01_flat_partial", "Props.C20_nested_inlining_partial", "VM.traceStmts_good", "Props.C09_bound"] + FLAG_THMS, run_V, ASSUME_V)
-reg("C20", ["Props.C20_nested_inlining_partial", "VM.traceStmts_good", "VM.bindParamRefs_good", "Props.C01_core"] + FLAG_THMS, run_V, ASSUME_V)
+def run_V_and_nested_tables(pid, tier, seed):
+    import slice_k as K
+    cov, fs, searcher = run_V(pid, tier, seed)
+    kstats, kfs = K.run_nested(pid, tier, seed, 60 if tier == "quick" else 800)
+    cov["nested_tables_not_in_dependency_order"] = kstats
+    cov["evaluations"] += kstats["nested_handbuilt"] + kstats["nested_composed"]
+    cov["rule"] = cov.get("rule", "") + ("; plus DAGs whose node table is NOT listed in dependency order (hand-built ExecNodes in a random "
+                                         "order; DAGs returned by compose) called inside an outer DAG: the outer DAG must build and return the inlined values")
+    return cov, fs + kfs, searcher
+
+
+reg("C20", ["Props.C20_nested_inlining_partial", "VM.traceStmts_good", "VM.bindParamRefs_good", "Props.C01_core"] + FLAG_THMS, run_V_and_nested_tables, ASSUME_V)
 reg("C10", ["Props.C10_flag_reads_full_reference", "Props.C10_execution_inactive_none", "Props.C10_active_runs", "Props.C03_exactly_once_at_done", "Props.C01_core", "Props.C01_flat_partial", "Props.C20_nested_inlining_partial"] + FLAG_THMS, run_V, ASSUME_V)
 
 
@@ -1160,10 +1180,10 @@ reg("C10", ["Props.C10_flag_reads_full_reference", "Props.C10_execution_inactive
 import slice_h as H  # noqa: E402
 
 KINDS_H = {
-    "C03": ["call", "call", "exec", "exec", "setup", "setupsel", "fork", "xmk", "xrun"],
-    "C11": ["call", "call", "exec", "setup", "setupsel", "fork", "xmk", "xrun", "xrun", "xsetup"],
+    "C03": ["call", "call", "exec", "exec", "setup", "setupsel", "fork", "xmk", "xrun", "cache"],
+    "C11": ["call", "call", "exec", "setup", "setupsel", "fork", "xmk", "xrun", "xrun", "xsetup", "cache"],
     "C15": ["call", "call", "call", "exec", "rerun", "rerun", "config", "compose", "setup", "xmk", "xrun", "xrun", "setupfail"],
-    "C18": ["cache", "cache", "call", "setup"],
+    "C18": ["cache", "cache", "call", "setup", "xmk", "xrun"],
 }
 
 
